@@ -271,13 +271,14 @@ class VirtualSignal:
     @property
     def value(self):
         '''Returns the value of this virtual signal'''
+        # cached per index: two samples can carry the same timestamp
+        # (the caches are dropped whenever the sampling changes)
         index = self.trace.index
-        ts = self.trace.timestamps[index]
-        if ts in self.cache:
-            res = self.cache[ts]
+        if index in self.cache:
+            res = self.cache[index]
         else:
             res = self.seval.eval_args(self.expr)[-1]
-            self.cache[ts] = res
+            self.cache[index] = res
 
         return res
 
